@@ -16,7 +16,7 @@ with contextlib.redirect_stdout(io.StringIO()):
     from wannierberri.symmetry.point_symmetry import PointGroup, transform_ident
 
 PROPERTY = "C03"
-FUNCTIONS = ["wannierberri.grid.grid.Grid.__init__/get_K_list/points_FFT/dense", "wannierberri.grid.grid.determineNK/autoNK", "wannierberri.grid.Kpoint.KpointBZ.Kp_fullBZ/set_result/get_result_factor",
+FUNCTIONS = ["wannierberri.grid.grid.Grid.__init__/get_K_list/points_FFT/dense", "wannierberri.grid.Kpoint.KpointBZparallel.divide (thorough)", "wannierberri.grid.grid.determineNK/autoNK", "wannierberri.grid.Kpoint.KpointBZ.Kp_fullBZ/set_result/get_result_factor",
              "wannierberri.data_K.data_K.Data_K.__init__/kpoints_all/nk/NKFFT", "wannierberri.data_K.data_K_R.Data_K_R.__init__/HH_K/Xbar('Ham',1)/get_R_mat",
              "wannierberri.fourier.rvectors.Rvectors.set_fft_R_to_k/apply_expdK/derivative/R_to_k", "wannierberri.fourier.fft.FFT_R_to_k.__init__/__call__/transform",
              "wannierberri.run_grid.run/process", "wannierberri.result.resultdict.ResultDict.__add__/__mul__", "wannierberri.result.energyresult.EnergyResult.__add__/__mul__",
@@ -25,16 +25,20 @@ FUNCTIONS = ["wannierberri.grid.grid.Grid.__init__/get_K_list/points_FFT/dense",
 BOUNDS = dict(quick=dict(grids="N = (2,2,1) (4,1,1) (3,2,1) (1,1,4) (2,1,3) (2,2,2) [matrix level]; (2,2,1) (4,1,1) (3,1,2) [run() level, use_irred_kpt=False]; (1,4,2) (2,1,4) [run() level with run()'s defaults use_irred_kpt=True, symmetrize=True on a system without point symmetry]", factorisations="every N_i = NKdiv_i x NKFFT_i",
                          num_wann="2 (matrix level), 1..2 (run level)", R_vectors="13..19, reaching beyond every FFT box (|R_i| up to N_i)", fftlib="'slow' for every factorisation, fftw(stub) / numpy(stub) alternating with the factorisation",
                          data="symbolic Hermitian Ham(R), |.|<=1; concrete triclinic lattice and Wannier centres", grid_resolution="determineNK / autoNK on 14 enumerated requests (concrete)"),
-              thorough=dict(grids="all N with N_i<=4 and at most 16 k-points [matrix level]; 8 grids up to (4,2,2) [run() level]; 6 anisotropic grids up to (2,4,2) with use_irred_kpt=True", factorisations="every N_i = NKdiv_i x NKFFT_i", num_wann="2",
-                            R_vectors="13..19", fftlib="fftw(stub), numpy(stub) and slow for every factorisation (matrix level); slow + alternating fftw/numpy (run level)", data="as quick", grid_resolution="as quick"))
+              thorough=dict(grids="matrix level: every N with N_i<=6 and at most 24 k-points (num_wann=2 up to 16 points, d2H too up to 8 points; num_wann=1 for 17..24 points) + (6,3,1) (5,2,2) (3,2,3) (5,5,1) (3,3,3) "
+                            "(6,1,5) (6,6,1) and num_wann 3..4 on small grids; K-shifts: the K-points of every factorisation of 16 grids divided once by KpointBZparallel.divide (ndiv from (2,1,1) to (2,2,2), (3,1,2)): "
+                            "shifted grid of N*ndiv with up to 48 k-points; run() level: 20 grids up to (4,3,2) incl. sizes 5 and 6, and 12 anisotropic grids up to (2,3,4) with use_irred_kpt=True",
+                            factorisations="every N_i = NKdiv_i x NKFFT_i (up to 16 per grid)", num_wann="1..4", R_vectors="13..35, |R_i| up to N_i", fftlib="fftw(stub), numpy(stub) and slow for every factorisation at "
+                            "both levels", data="as quick", grid_resolution="as quick"))
 EXPLANATION = ("For one regular grid N the real Grid.get_K_list / KpointBZ / Data_K_R / Rvectors / FFT_R_to_k chain (and, at the loop level, the real run() with the real TabulatorAll, ResultDict, TABresult, "
                "KBandResult and EnergyResult plumbing) is executed for every factorisation N = NKdiv x NKFFT on a symbolic Hermitian R-space Hamiltonian. z3 decides that the k-resolved Wannier-gauge H(k), dH(k) "
                "collected over all K-points, the table returned by run() after self_to_grid and the k-average returned by a summing calculator equal one factorisation-independent explicit sum at k = n/N "
-               "to 1e-9 for all |data|<=1; coverage of the grid (every n/N exactly once) is a concrete fact per factorisation.")
+               "to 1e-9 for all |data|<=1; coverage of the grid (every n/N exactly once) is a concrete fact per factorisation. In the thorough tier the same is decided for the K-points of every factorisation after one refinement step "
+               "(KpointBZparallel.divide): their k-points form one shifted grid of N*ndiv, and H, dH on it equal the explicit sum.")
 ASSUMPTIONS = ["|Ham(R)_ab| components in [-1,1] (tolerance obligations; homogeneous in the data)", "systems without point symmetry (use_irred_kpt=False, and run()'s default use_irred_kpt=True / symmetrize=True with the trivial group: nothing may be merged) and no adaptive "
                "refinement (adpt_num_iter=0); non-trivial groups and refinement are C06/C07/C10", "X(-R)=X(R)^dagger"]
 OUTSIDE = ["the eigen-decomposition and the formulas of the real static / dynamic / tabulating calculators between H(k), dH(k) and the integrand (cut: the stub calculators tabulate and average the Wannier-gauge "
-           "matrix elements themselves, which is what every real calculator is a function of)", "FFT library internals (DFT by definition)", "grids with more than 16 k-points or N_i > 4",
+           "matrix elements themselves, which is what every real calculator is a function of)", "FFT library internals (DFT by definition)", "grids with more than 36 k-points or N_i > 6; K-shifts other than the one refinement step of KpointBZparallel.divide",
            "ray-parallel execution of process() (C12)", "IEEE rounding (agreement claimed to 1e-9)"]
 STUBS = ["np.fft / pyfftw -> DFT by definition (as in C02)", "stand-in system (rvec, num_wann, real_lattice, recip_lattice, periodic, NKFFT_recommended, pointgroup=PointGroup(), get_R_mat/has_R_mat)",
          "stub tabulators inside the real TabulatorAll: KBandResult of the entries of data_K.HH_K and data_K.Xbar('Ham',1) (UU_K preset to the identity: no eigh)",
@@ -42,7 +46,7 @@ STUBS = ["np.fft / pyfftw -> DFT by definition (as in C02)", "stand-in system (r
          "its refinement priority `max` is a constant (unused with adpt_num_iter=0)", "run_grid.get_ray_cpus_count -> 1 (ray not initialised)"]
 TOL = 1e-9
 LATTICE = np.array([[1.0, 0.125, 0.0], [-0.5, 0.875, 0.25], [0.0625, -0.1875, 1.5]])
-CENTRES = np.array([[0.0, 0.0, 0.0], [0.25, 0.5, 0.125], [0.6, 0.1, 0.3]])
+CENTRES = np.array([[0.0, 0.0, 0.0], [0.25, 0.5, 0.125], [0.6, 0.1, 0.3], [-0.35, 0.8, 0.45]])
 
 
 class FakeFFTW:
@@ -106,10 +110,11 @@ def grid_points(N):
     return [(i, j, k) for i in range(N[0]) for j in range(N[1]) for k in range(N[2])]
 
 
-def reference(iR, N, X, nb, der):
-    """H(k), dH(k) at k = n/N in C order: sum_R exp(2 pi i k.R) (i (R + t_b - t_a))^der X(R)_ab, index by index"""
+def reference(iR, N, X, nb, der, kpts=None):
+    """H(k), dH(k) at k = n/N in C order (or at the given k-points): sum_R exp(2 pi i k.R) (i (R + t_b - t_a))^der X(R)_ab, index by index"""
     iR = np.array(iR)
-    kpts = np.array(grid_points(N)) / np.array(N, dtype=float)
+    if kpts is None:
+        kpts = np.array(grid_points(N)) / np.array(N, dtype=float)
     ph = np.exp(2j * np.pi * kpts.dot(iR.T))
     cR, cc = iR.dot(LATTICE), CENTRES[:nb].dot(LATTICE)
     out = np.empty((len(kpts), nb, nb) + (3,) * der, dtype=object)
@@ -143,19 +148,19 @@ def _quiet(f, *a, **k):
 
 
 # ------------------------------------------------------------------------------------------------------------
-def case_matrix(rec, N, nb, libs, both=False):
+def case_matrix(rec, N, nb, libs, both=False, dermax=1):
     """union over the K-points of (k, H_W(k), dH_W(k)) for every factorisation == explicit sum at k = n/N"""
     _shadow()
     iR = rset_for(N)
     X = hermR("H", iR, nb)
     facts = factorisations(N)
-    par = dict(test="matrix", N=list(N), nb=nb, libs=list(libs))
+    par = dict(test="matrix", N=list(N), nb=nb, libs=list(libs), dermax=dermax)
     Narr = np.array(N)
 
     def body(rec):
         rec.witness = lambda env: dict(H=env.arr(X), **par)
         system = Sys(iR, X, nb)
-        ref = [reference(iR, N, X, nb, 0), reference(iR, N, X, nb, 1)]
+        ref = [reference(iR, N, X, nb, d) for d in range(dermax + 1)]
         index = {n: i for i, n in enumerate(grid_points(N))}
         for ifac, (div, fft) in enumerate(facts):
             for lib in (libs if both else (libs[ifac % 2], "slow")):      # quick: 'slow' for every factorisation, fftw / numpy alternating
@@ -167,7 +172,7 @@ def case_matrix(rec, N, nb, libs, both=False):
                              f"{len(KL)} K-points, sum of factors {sum(K.factor for K in KL)}", key="Grid.get_K_list number of K-points / weights")
                 ok, detail = _irred_list_ok(system, div, fft, KL)
                 rec.concrete(f"{tag}: without point symmetry the irreducible K-list (run() default) is the full K-list", ok, detail, key="Grid.get_K_list(use_symmetry=True) merges K-points of a system without symmetry")
-                got = [np.empty((len(index),) + ref[d].shape[1:], dtype=object) for d in (0, 1)]
+                got = [np.empty((len(index),) + ref[d].shape[1:], dtype=object) for d in range(dermax + 1)]
                 count = np.zeros(len(index), dtype=int)
                 offgrid = []
                 for Kp in KL:
@@ -186,12 +191,87 @@ def case_matrix(rec, N, nb, libs, both=False):
                         i = index[tuple(int(x) for x in n.astype(int) % Narr)]
                         count[i] += 1
                         got[0][i], got[1][i] = H[ik], dH[ik]
+                        for d in range(2, dermax + 1):
+                            got[d][i] = dk.Xbar('Ham', d)[ik]
                 rec.concrete(f"{tag}: the k-points of all K-points are the grid n/N, each exactly once", not offgrid and bool(np.all(count == 1)),
                              f"off-grid: {offgrid[:3]} multiplicities: {count.tolist()}", key="k-points of the K-points do not tile the grid n/N exactly once")
                 if offgrid or not np.all(count == 1):
                     continue
                 rec.close(f"{tag}: H_W(k) over all K-points == explicit sum at k=n/N", got[0], ref[0], TOL, key="H_W(k) depends on the factorisation (differs from the explicit sum at n/N)")
                 rec.close(f"{tag}: dH_W(k) over all K-points == explicit sum at k=n/N", got[1], ref[1], TOL, key="dH_W(k) depends on the factorisation (differs from the explicit sum at n/N)")
+                for d in range(2, dermax + 1):
+                    rec.close(f"{tag}: d^{d}H_W(k) over all K-points == explicit sum at k=n/N", got[d], ref[d], TOL, key="d2H_W(k) depends on the factorisation (differs from the explicit sum at n/N)")
+    rec.explore(body)
+
+
+def _shift_grid(N, ndiv):
+    """every K-point cell of the grid N split into ndiv sub-cells (KpointBZparallel.divide): the sub-cell centres of all K-points form the grid
+    k = (m + 1/2 - ndiv/2) / (N ndiv), m = 0 .. N ndiv - 1, whatever the factorisation of N"""
+    Nf = np.array(N) * np.array(ndiv)
+    off = 0.5 - np.array(ndiv) / 2
+    pts = grid_points(tuple(int(x) for x in Nf))
+    return Nf, off, pts, (np.array(pts) + off) / Nf
+
+
+def _collect_shifted(system, div, fft, lib, N, nb, ndiv, ident, empty):
+    """K-points of the factorisation, each divided by ndiv; returns (problems, H table, dH table) on the shifted fine grid"""
+    Nf, off, pts, _ = _shift_grid(N, ndiv)
+    index = {n: i for i, n in enumerate(pts)}
+    grid = _quiet(Grid, system=system, NKdiv=np.array(div), NKFFT=np.array(fft), use_symmetry=False)
+    with contextlib.redirect_stdout(io.StringIO()):
+        KL = grid.get_K_list(use_symmetry=False)
+    sub = []
+    for K in KL:
+        sub += K.divide(np.array(ndiv), system.periodic.copy(), use_symmetry=False)
+    bad = []
+    if len(sub) != int(np.prod(div)) * int(np.prod(ndiv)) or abs(sum(K.factor for K in sub) - 1) > 1e-12 or any(K.factor != 0 for K in KL) or \
+            any(abs(K.factor - 1. / len(sub)) > 1e-12 for K in sub):
+        bad.append(f"{len(sub)} sub-K-points, sum of factors {sum(K.factor for K in sub)}, parents {[K.factor for K in KL][:4]}")
+    got = [empty((len(pts), nb, nb)), empty((len(pts), nb, nb, 3))]
+    count = np.zeros(len(pts), dtype=int)
+    for Kp in sub:
+        dk = DKR.Data_K_R(system, dK=Kp.Kp_fullBZ, grid=grid, Kpoint=Kp, fftlib=lib)
+        dk.__dict__['UU_K'] = ident(dk.nk, nb)
+        kall = np.asarray(dk.kpoints_all, dtype=float)
+        H, dH = dk.HH_K, dk.Xbar('Ham', 1)
+        if len(kall) != int(np.prod(fft)) or np.shape(H)[0] != len(kall) or np.shape(dH)[0] != len(kall):
+            bad.append(f"shapes at K={Kp.K.tolist()}")
+            continue
+        for ik, k in enumerate(kall):
+            m = k * Nf - off
+            if np.abs(m - np.rint(m)).max() > 1e-9:
+                bad.append(f"k={k.tolist()} of K={Kp.K.tolist()} is not on the shifted grid")
+                continue
+            i = index[tuple(int(x) for x in np.rint(m).astype(int) % Nf)]
+            count[i] += 1
+            got[0][i], got[1][i] = H[ik], dH[ik]
+    if not bad and not np.all(count == 1):
+        bad.append(f"multiplicities {count.tolist()}")
+    return bad, got
+
+
+def case_matrix_shift(rec, N, nb, ndiv, libs):
+    """K-shifts: every K-point of every factorisation divided by ndiv (the refinement step); the k-set is the shifted grid of N*ndiv and H, dH on it are factorisation independent"""
+    _shadow()
+    iR = rset_for(N)
+    X = hermR("H", iR, nb)
+    par = dict(test="shift", N=list(N), nb=nb, ndiv=list(ndiv), libs=list(libs))
+
+    def body(rec):
+        rec.witness = lambda env: dict(H=env.arr(X), **par)
+        system = Sys(iR, X, nb)
+        kpts = _shift_grid(N, ndiv)[3]
+        ref = [reference(iR, N, X, nb, d, kpts=kpts) for d in (0, 1)]
+        for div, fft in factorisations(N):
+            for lib in libs:
+                tag = f"NKdiv={div} NKFFT={fft} divide({ndiv}) {lib}"
+                bad, got = _collect_shifted(system, div, fft, lib, N, nb, ndiv, _ident, lambda shp: np.empty(shp, dtype=object))
+                rec.concrete(f"{tag}: the k-points of all refined K-points are the shifted grid of N*ndiv, each exactly once, weights 1/(NKdiv*ndiv)", not bad, "; ".join(bad[:3]),
+                             key="k-points of the refined K-points do not tile the shifted grid exactly once")
+                if bad:
+                    continue
+                rec.close(f"{tag}: H_W(k) over all refined K-points == explicit sum on the shifted grid", got[0], ref[0], TOL, key="H_W(k) of refined K-points depends on the factorisation")
+                rec.close(f"{tag}: dH_W(k) over all refined K-points == explicit sum on the shifted grid", got[1], ref[1], TOL, key="dH_W(k) of refined K-points depends on the factorisation")
     rec.explore(body)
 
 
@@ -250,7 +330,7 @@ def _run(system, div, fft, lib, cls, irred=False, tab=True):
                   parameters_K=dict(fftlib=lib), fout_name="c03", file_Klist_path="/nonexistent/c03", **kw)
 
 
-def case_run(rec, N, nb, libs, irred=False):
+def case_run(rec, N, nb, libs, irred=False, all_libs=False):
     """the real run() for every factorisation: table after self_to_grid and k-average == explicit sums at k = n/N"""
     _shadow()
     RG.get_ray_cpus_count = lambda: 1
@@ -268,7 +348,7 @@ def case_run(rec, N, nb, libs, irred=False):
         mean = refH.sum(axis=0) / ntot
         kgrid = np.array(grid_points(N)) / np.array(N, dtype=float)
         for ifac, (div, fft) in enumerate(facts):
-            for lib in (libs[ifac % 2], "slow"):
+            for lib in (("fftw", "numpy", "slow") if all_libs else (libs[ifac % 2], "slow")):
                 tag = f"run() NKdiv={div} NKFFT={fft} {lib}"
                 if irred:      # integrals first: with K-points missing the tabulating calculator cannot even be put on the grid
                     avg = _run(system, div, fft, lib, PrioResult, irred=True, tab=False).results["mean"]
@@ -326,28 +406,41 @@ def case_grid_resolution(rec):
 def cases(tier, seed):
     q = tier == "quick"
     out = [Case("grid resolution", case_grid_resolution, {})]
+    libs = ("fftw", "numpy", "slow")
     if q:
-        mat = [(2, 2, 1), (4, 1, 1), (3, 2, 1), (1, 1, 4), (2, 1, 3), (2, 2, 2)]
-        runs = [((2, 2, 1), 2), ((4, 1, 1), 1), ((3, 1, 2), 1)]
-    else:
-        mat = [N for N in itertools.product((1, 2, 3, 4), repeat=3) if np.prod(N) <= 16]
-        runs = [((2, 2, 1), 2), ((4, 1, 1), 2), ((3, 1, 2), 2), ((1, 4, 2), 2), ((2, 2, 2), 2), ((4, 2, 2), 1), ((3, 3, 1), 2), ((1, 2, 4), 2)]
-    for N in mat:
-        libs = ("fftw", "numpy", "slow")
-        out.append(Case(f"matrix N={N}", case_matrix, dict(N=N, nb=2, libs=libs, both=not q), timeout=1700))
-    for N, nb in ([((1, 4, 2), 1), ((2, 1, 4), 1)] if q else [((1, 4, 2), 2), ((2, 1, 4), 2), ((2, 4, 2), 1), ((1, 2, 4), 2), ((2, 2, 4), 1), ((3, 1, 2), 2)]):
-        out.append(Case(f"run use_irred_kpt=True N={N} nb={nb}", case_run, dict(N=N, nb=nb, libs=("fftw", "numpy"), irred=True), timeout=1700))
-    for N, nb in runs:
-        out.append(Case(f"run N={N} nb={nb}", case_run, dict(N=N, nb=nb, libs=("fftw", "numpy")), timeout=1700))
-        if not q and np.prod(N) <= 8:
-            out.append(Case(f"run N={N} nb={nb} libs swapped", case_run, dict(N=N, nb=nb, libs=("numpy", "fftw")), timeout=1700))
+        for N in [(2, 2, 1), (4, 1, 1), (3, 2, 1), (1, 1, 4), (2, 1, 3), (2, 2, 2)]:
+            out.append(Case(f"matrix N={N}", case_matrix, dict(N=N, nb=2, libs=libs, both=False), timeout=1700))
+        for N, nb in [((1, 4, 2), 1), ((2, 1, 4), 1)]:
+            out.append(Case(f"run use_irred_kpt=True N={N} nb={nb}", case_run, dict(N=N, nb=nb, libs=("fftw", "numpy"), irred=True), timeout=1700))
+        for N, nb in [((2, 2, 1), 2), ((4, 1, 1), 1), ((3, 1, 2), 1)]:
+            out.append(Case(f"run N={N} nb={nb}", case_run, dict(N=N, nb=nb, libs=("fftw", "numpy")), timeout=1700))
+        return out
+    T = 3400
+    # matrix level: every grid with N_i <= 6 and at most 16 k-points (d2H too up to 8 points), then selected larger / prime / anisotropic ones up to 36 points
+    for N in [N for N in itertools.product((1, 2, 3, 4, 5, 6), repeat=3) if np.prod(N) <= 16]:
+        out.append(Case(f"matrix N={N}", case_matrix, dict(N=N, nb=2, libs=libs, both=True, dermax=2 if np.prod(N) <= 8 else 1), timeout=T))
+    big = [(N, 1) for N in itertools.product((1, 2, 3, 4, 5, 6), repeat=3) if 16 < np.prod(N) <= 24]         # all grids with 17..24 points, one band
+    big += [((6, 3, 1), 2), ((5, 2, 2), 2), ((3, 2, 3), 2), ((5, 5, 1), 1), ((3, 3, 3), 1), ((6, 1, 5), 1), ((6, 6, 1), 1), ((2, 2, 1), 3), ((3, 1, 2), 3), ((1, 5, 1), 4), ((2, 1, 2), 4)]
+    for N, nb in big:
+        out.append(Case(f"matrix N={N} nb={nb}", case_matrix, dict(N=N, nb=nb, libs=libs, both=True), timeout=T))
+    # K-shifts: the K-points of every factorisation divided once (refinement step) -> shifted grid of N*ndiv
+    for N, ndiv in [((2, 2, 1), (2, 1, 1)), ((2, 2, 1), (2, 2, 2)), ((4, 1, 1), (2, 1, 1)), ((3, 2, 1), (1, 3, 1)), ((1, 1, 4), (1, 2, 2)), ((2, 1, 3), (3, 1, 2)), ((2, 2, 2), (2, 1, 2)), ((5, 1, 1), (2, 2, 1)),
+                    ((1, 6, 1), (1, 2, 1)), ((2, 3, 1), (1, 1, 3)), ((1, 2, 4), (2, 1, 1)), ((3, 1, 2), (2, 2, 2)), ((1, 4, 2), (2, 1, 2)), ((6, 1, 1), (1, 2, 2)), ((2, 2, 2), (3, 1, 1)), ((1, 1, 5), (2, 1, 2))]:
+        out.append(Case(f"matrix refined N={N} ndiv={ndiv}", case_matrix_shift, dict(N=N, nb=2, ndiv=ndiv, libs=libs), timeout=T))
+    # loop level: every back end through run() for every factorisation
+    for N, nb in [((2, 2, 1), 2), ((4, 1, 1), 2), ((3, 1, 2), 2), ((1, 4, 2), 2), ((2, 2, 2), 2), ((4, 2, 2), 2), ((3, 3, 1), 2), ((1, 2, 4), 2), ((5, 1, 1), 2), ((1, 6, 1), 2), ((6, 1, 2), 2), ((2, 3, 1), 3),
+                  ((1, 5, 2), 2), ((5, 3, 1), 1), ((6, 2, 1), 2), ((2, 1, 6), 1), ((4, 4, 1), 1), ((3, 2, 3), 1), ((6, 3, 1), 1), ((4, 3, 2), 1)]:
+        out.append(Case(f"run N={N} nb={nb}", case_run, dict(N=N, nb=nb, libs=("fftw", "numpy"), all_libs=True), timeout=T))
+    for N, nb in [((1, 4, 2), 2), ((2, 1, 4), 2), ((2, 4, 2), 2), ((1, 2, 4), 2), ((2, 2, 4), 2), ((3, 1, 2), 2), ((1, 6, 2), 2), ((2, 1, 5), 2), ((1, 5, 3), 1), ((2, 6, 1), 1), ((2, 3, 4), 1), ((1, 3, 6), 1)]:
+        out.append(Case(f"run use_irred_kpt=True N={N} nb={nb}", case_run, dict(N=N, nb=nb, libs=("fftw", "numpy"), irred=True, all_libs=True), timeout=T))
     return out
 
 
 # ------------------------------------------------------------------------------------------------------------
-def _np_reference(iR, N, X, nb, der):
+def _np_reference(iR, N, X, nb, der, kpts=None):
     iR = np.array(iR)
-    kpts = np.array(grid_points(N)) / np.array(N, dtype=float)
+    if kpts is None:
+        kpts = np.array(grid_points(N)) / np.array(N, dtype=float)
     cc = CENTRES[:nb].dot(LATTICE)
     cRs = iR.dot(LATTICE)[:, None, None, :] - cc[None, :, None, :] + cc[None, None, :, :]
     Y = X
@@ -381,7 +474,17 @@ def replay(rec):
         for div, fft in factorisations(N):
             for lib in ("fftw", "numpy", "slow"):
                 tag = f"NKdiv={div} NKFFT={fft} {lib}"
-                if w["test"] == "matrix":
+                if w["test"] == "shift":
+                    ndiv = tuple(w["ndiv"])
+                    kpts = _shift_grid(N, ndiv)[3]
+                    b, got = _collect_shifted(system, div, fft, lib, N, nb, ndiv, lambda nk, n: _ident(nk, n).astype(complex), lambda shp: np.zeros(shp, dtype=complex))
+                    if b:
+                        bad.append(f"{tag} divide({ndiv}): " + "; ".join(b[:2]))
+                    else:
+                        e = [np.abs(got[d] - _np_reference(iR, N, X, nb, d, kpts=kpts)).max() for d in (0, 1)]
+                        if max(e) > 0.9 * TOL:
+                            bad.append(f"{tag} divide({ndiv}): |H-ref|={e[0]:.2e} |dH-ref|={e[1]:.2e} on the shifted grid")
+                elif w["test"] == "matrix":
                     grid = _quiet(Grid, system=system, NKdiv=np.array(div), NKFFT=np.array(fft), use_symmetry=False)
                     with contextlib.redirect_stdout(io.StringIO()):
                         KL = grid.get_K_list(use_symmetry=False)
@@ -410,6 +513,9 @@ def replay(rec):
                             count[i] += 1
                             if np.abs(H[ik] - refH[i]).max() > 0.9 * TOL or np.abs(dH[ik] - refdH[i]).max() > 0.9 * TOL:
                                 bad.append(f"{tag}: k={k.tolist()} |H-ref|={np.abs(H[ik] - refH[i]).max():.2e} |dH-ref|={np.abs(dH[ik] - refdH[i]).max():.2e}")
+                                break
+                            if w.get("dermax", 1) >= 2 and np.abs(dk.Xbar('Ham', 2)[ik] - _np_reference(iR, N, X, nb, 2)[i]).max() > 0.9 * TOL:
+                                bad.append(f"{tag}: k={k.tolist()} d2H differs from the explicit sum")
                                 break
                     if not np.all(count == 1) and not (bad and bad[-1].startswith(tag)):
                         bad.append(f"{tag}: grid multiplicities {count.tolist()}")
